@@ -113,6 +113,9 @@ impl Searcher {
 
     /// Searches a position to a given depth using negamax with alpha-beta.
     fn search_position(&mut self, board: &Board, depth: u8) -> SearchResult {
+        #[cfg(flounder_verif)]
+        verif::iteration_start();
+
         self.repetition.push(self.zobrist.hash(board));
 
         let result = self.negamax(
@@ -447,6 +450,12 @@ pub mod verif {
     pub fn reset_counters() {
         DEEPER_HITS.with(|c| c.set(0));
         HITS.with(|c| c.set(0));
+    }
+
+    /// Called at the start of every iteration of the iterative deepening: the counters then
+    /// describe the last iteration only (the one whose result is reported).
+    pub fn iteration_start() {
+        reset_counters();
     }
 
     pub fn counters() -> (u64, u64) {
